@@ -327,6 +327,8 @@ pub struct Args {
     /// replay exactly this case (workload-specific meaning)
     pub case: Option<String>,
     pub kv: BTreeMap<String, String>,
+    /// case indices to leave out (cases that crashed the process in an earlier attempt)
+    pub skip: Vec<u64>,
 }
 
 impl Args {
@@ -340,6 +342,7 @@ impl Args {
             out: None,
             case: None,
             kv: BTreeMap::new(),
+            skip: Vec::new(),
         };
         let mut i = 2;
         while i < argv.len() {
@@ -372,6 +375,9 @@ impl Args {
                 }
                 other => {
                     if let Some((k, v)) = other.split_once('=') {
+                        if k == "skip" {
+                            a.skip = v.split(',').filter_map(|x| x.parse().ok()).collect();
+                        }
                         a.kv.insert(k.to_string(), v.to_string());
                     }
                 }
@@ -388,7 +394,7 @@ impl Args {
     }
     /// Does this shard own case index `i`?
     pub fn mine(&self, i: u64) -> bool {
-        i % self.nshards == self.shard
+        i % self.nshards == self.shard && !self.skip.contains(&i)
     }
     pub fn write_out(&self, rep: &Report) {
         let j = rep.to_json();
